@@ -10,7 +10,9 @@ META = {
     "category": "proof",
     "design_ref": "§6 C16, §5.5",
     "technique": "Lean 4 invariant proof over all schedules and all instants + controlled-worker differential correspondence",
-    "text": "Lean theorem C16_full (C16_full_interleaved: also when bodies start and finish while a poll is scanning), for every sortable workflow graph, any number of nodes and jobs, every limit k, every schedule "
+    "text": "Lean theorem C16_full (C16_full_interleaved: also when bodies start and finish while a poll is scanning; C16_rerun: "
+    "also when the submission starts on a cache that already holds results - successful or errored, in the cache_root or in "
+    "readonly caches - with or without rerun: at most k bodies are executing, cache hits complete without a body), for every sortable workflow graph, any number of nodes and jobs, every limit k, every schedule "
     "(including lost jobs) and every instant, also between two polls: any duplicate-free list of bodies that are executing has "
     "length <= k.  Mechanism (C16_pending_bound): a body executes only inside a pending future and the dispatcher creates a "
     "future only while len(task_futures) < max_concurrent (the D11 repair); C16_old_rule_violates shows by computation that the "
@@ -20,7 +22,9 @@ META = {
     "completes per iteration) and random ones, always including the end-of-queue family (k in {2,3}, k+1..k+3 independent / "
     "split / chain+independent jobs, one future completing while the other bodies execute, so that r <= k jobs remain queued with "
     "r + running > k), comparing per iteration tasks / dispatches / pending futures and the maximal "
-    "number of simultaneously open bodies with the Lean model replaying the recorded schedule.",
+    "number of simultaneously open bodies with the Lean model replaying the recorded schedule.  Two-pass cases (3-6 jobs all "
+    "runnable at once, k in {1,2}; second submission with rerun=True, or after a first one in which every job failed, over the "
+    "same cache_root or a readonly cache) are part of both tiers: every job then already has a result when it is handed out.",
     "note": "Trusted: Lean kernel; hand-written model of the dispatch loop (Sched/Model.lean, Sched/Interleaved.lean), one update_status call atomic w.r.t. the environment; "
     "'executing' = lock file held between the body's start and end log lines; the pool of the controlled worker has k+1 "
     "processes so that an overstepping dispatcher shows up as an extra open body; the verdict 'open bodies <= k' is taken from the "
@@ -32,9 +36,10 @@ META = {
 }
 
 _NS = "PydraModel.Sched."
-OBLIGATIONS = [_NS + n for n in ("C16_full", "C16_full_interleaved", "C16_pending_bound", "C16_k1", "C16_old_rule_violates", "C16_new_rule_respects")]
+OBLIGATIONS = [_NS + n for n in ("C16_full", "C16_full_interleaved", "C16_rerun", "C16_rerun_begins_in_future", "C16_pending_bound", "C16_k1",
+                                 "C16_old_rule_violates", "C16_new_rule_respects")]
 LEAN_TARGETS = ["PydraModel.Props.C16"]
-MODEL_TARGETS = ["PydraModel.Sched.Model", "PydraModel.DriverUtil"]
+MODEL_TARGETS = ["PydraModel.Sched.Model", "PydraModel.Sched.Rerun", "PydraModel.DriverUtil"]
 
 
 def spec(case, obs):
@@ -46,6 +51,9 @@ def spec(case, obs):
     if obs.get("outcome") in ("HANG", "DEVICE-TIMEOUT", "LIVELOCK"):
         return False, f"submission did not end: {obs.get('outcome')} {obs.get('msg', '')[:200]}"
     return True, ""
+
+
+spec.own_two_pass = True  # two-pass cases too are judged by the limit alone (what else they do is C15's subject, finding D71)
 
 
 def _n(name, preds=(), **kw):
@@ -103,6 +111,30 @@ def tail_cases(rng, n):
     return cases
 
 
+def two_cases(rng, n):
+    """the limit over PRE-EXISTING results: a second submission with rerun=True, or after a first one whose jobs all failed
+    (Job.run re-executes an errored result), over the same cache_root or a readonly cache; every job runnable at once,
+    k in {1, 2}, every dispatched body opened at once"""
+    cases = []
+    names = [chr(ord("a") + i) for i in range(10)]
+    for _ in range(n):
+        nj = rng.randint(3, 6)
+        kind = rng.choice(["indep", "indep", "split", "mix"])
+        if kind == "indep":
+            c = {"nodes": [_n(names[i]) for i in range(nj)], "keep_state": []}
+        elif kind == "split":
+            c = {"nodes": [_n("a", split=list(range(nj)))], "keep_state": []}
+        else:
+            c = {"nodes": [_n("a", split=[0, 1])] + [_n(names[i + 1]) for i in range(nj - 2)], "keep_state": []}
+        tags = sched.all_tags(c)
+        how = rng.choice(["rerun", "rerun", "errored", "rerun-ro", "errored-ro"])
+        c["two"] = {"rerun": how.startswith("rerun"), "ro": how.endswith("-ro"), "pre_fail": tags if how.startswith("errored") else []}
+        c.update({"k": rng.choice([1, 2, 2]), "fail": [], "n_procs": len(tags),
+                  "policy": {"seed": rng.randrange(10**6), "style": rng.choice(["greedy", "greedy", "random"])}})
+        cases.append(c)
+    return cases
+
+
 # witnesses of repaired findings and hand-made schedules: corpus/sched/C16.jsonl
 CORPUS = sched.load_corpus("C16")
 
@@ -110,15 +142,15 @@ CORPUS = sched.load_corpus("C16")
 def correspondence(ctx):
     core.assert_repo_loaded()
     # corpus (D11 witness) first, then generated cases, in one batch
-    res = sched.explore(ctx, [dict(c) for c in CORPUS] + tail_cases(ctx.rng, ctx.pick(3, 40))
-                        + gen_cases(ctx.rng, ctx.pick(9, 100), ctx.pick(6, 10)), spec, "C16 concurrency limit")
+    res = sched.explore(ctx, [dict(c) for c in CORPUS] + tail_cases(ctx.rng, ctx.pick(3, 40)) + two_cases(ctx.rng, ctx.pick(4, 40))
+                        + gen_cases(ctx.rng, ctx.pick(8, 90), ctx.pick(6, 10)), spec, "C16 concurrency limit")
     ctx.extra["max_open_seen"] = max([o.get("maxopen") or 0 for (_, o, _, _, _) in res] + [0])
     ctx.extra["cases_at_limit"] = sum(1 for (c, o, _, _, _) in res if c.get("k") is not None and o.get("maxopen") == c["k"])
 
 
 def search(ctx):
-    sched.explore(ctx, [dict(c) for c in CORPUS] + tail_cases(ctx.rng, ctx.pick(12, 80)) + gen_cases(ctx.rng, ctx.pick(30, 250), 10),
-                  spec, "C16 search")
+    sched.explore(ctx, [dict(c) for c in CORPUS] + tail_cases(ctx.rng, ctx.pick(12, 80)) + two_cases(ctx.rng, ctx.pick(10, 70))
+                  + gen_cases(ctx.rng, ctx.pick(25, 220), 10), spec, "C16 search")
 
 
 def replay(ctx, rec):
